@@ -131,10 +131,22 @@ func lastKey(path string) string {
 var badRegexes = []string{"(", "[", "a{2,1}", "(?P<n", "\\", "*", "(a+)+$", "(a|aa)*b", "^(([a-z])+.)+[A-Z]([a-z])+$",
 	"(?i)^h", ".{1000}", "a{1000}", "(((((((((((((((((((((a)))))))))))))))))))))", "\\C", "\\pN+", "[[:alpha:]]", "^$", ".*", "\\x{110000}", "(?s).", "\xff"}
 
+// nonNodeSetXPaths: boolean / numeric / string valued expressions (the class of N11): where a
+// node-set query is expected they select the context node only (if true-ish) since fix 3036423.
+var nonNodeSetXPaths = []string{"b = '1'", "a = a", "1 = 1", "1 = 2", ". = .", "a != 'zz'", "not(a)", "not(zz)", "count(a) > 0", "count(*) = 0",
+	"count(a)", "count(*)", "1", "0", "-1", "1 + 1", "2 * 3 - 6", "1 div 0", "'x'", "''", "\"s\"", "string-length(a) > 0", "string-length(.)", "sum(a) = 0", "a > 0", "a < 5", "a >= b",
+	"contains(., 'x')", "starts-with(a, 'x')", "boolean(a)", "number(a)", "string(a)", "concat(a, b)", "(a = b)", "(1)", "position() = 1", "last() > 0",
+	"normalize-space(a) = ''", "a | b", "a[1] = b[1]", "../a = 1", "//a = //b", "/* = 1", "@id = '0'", "@id > 0"}
+
+// connectiveXPaths: a top-level (outside any predicate) `and` / `or`: when an operand is a comparison
+// that is true, antchfx/xpath's booleanQuery.Select collects the operand's "results" for ever
+// (known finding N12) -- outside the guard xpath_no_top_connective.
+var connectiveXPaths = []string{"a = '1' or b = '2'", "a = '1' and b = '1'", "a and b", "a or b", "a='1' or b", "a or b='1'", "count(a)>0 and count(b)>0", "1 or 0", "a = 'zz' or b = 'zz'"}
+
 var exoticXPaths = []string{"[", "]", "/", "//", ".", "..", "/*", "//*", "*", "a[", "a[1", "a[b[c]]", "a[.='x']", "a['[']", "a[\"]\"]", "a[']",
 	"/a/b[.='3']", "a | b", "count(", "count(*)", "1 div 0", "$x", "a[position()=last()]", "a[last()]", "a[0]", "a[-1]", "a[1e999]",
 	"ancestor::*", "following::*", "preceding-sibling::*[1]", "@x", "@*", "text()", "node()", "comment()", "processing-instruction()",
-	"a/..", "../..", "/..", "../../../..", "x:y", "*:a", "a:*", "id('x')", "string-length(.) > 0", "not(a)", "a and b", "a or", "-a", "--1",
+	"a/..", "../..", "/..", "../../../..", "x:y", "*:a", "a:*", "id('x')", "string-length(.) > 0", "not(a)", "a or", "-a", "--1",
 	"a[b][c][d]", "(a)", "()", "a()", "concat('a')", "substring(a,1,2,3)", "sum(a)", "number('x')", "boolean()", "true()", "lang('en')",
 	"a[contains(., 'x')]", "a[starts-with(.,\"x\")]", "translate(a,'ab','c')", "normalize-space()", "name()", "local-name(a)", "namespace-uri()",
 	"a[.=1.5e3]", "//a//b//c//d//e", "/*[1]/*[1]/*[1]", "a[.=../b]", "self::a", "child::a", "descendant-or-self::node()", "a[count(b)=count(c)]",
@@ -173,6 +185,12 @@ func on(name string) bool { return !guardsOff[name] && !guardsOff["all"] }
 
 // pickXPath picks from exoticXPaths; under the guard only strings inside xpath_plain.
 func pickXPath(r *vh.Rng, guard bool) string {
+	if !on("xpath_no_top_connective") && r.Chance(0.2) {
+		return pick(r, connectiveXPaths)
+	}
+	if r.Chance(0.35) {
+		return pick(r, nonNodeSetXPaths)
+	}
 	for {
 		x := pick(r, exoticXPaths)
 		return x
